@@ -303,6 +303,20 @@ def refuses_additions(rec, label, sess, top, final, case):
                 continue
             rec.violation("post-elaboration-addition-accepted", f"[{label}] literals.{form} of a Literal on the elaborated module {mname} was accepted", case=case,
                           form="literals." + form, target="literal")
+        # ... and the in-place operators, which edit the list BEFORE the Module refuses the re-assignment they end with
+        for form in ("+=", "*="):
+            rec.count("additions.attempted")
+            n0 = len(m.literals)
+            try:
+                if form == "+=":
+                    m.literals += [h.Literal(text="* added after elaboration")]
+                else:
+                    m.literals *= 2
+            except Exception:
+                pass
+            if len(m.literals) != n0 or (form == "+=" and any(getattr(l_, "text", None) == "* added after elaboration" for l_ in m.literals)):
+                rec.violation("post-elaboration-addition-accepted", f"[{label}] `literals {form} ...` on the elaborated module {mname} changed its literals "
+                              f"({n0} -> {len(m.literals)} entries)", case=case, form="literals" + form, target="literal")
         held = {"signal": next(iter(m.signals), None), "port": next(iter(m.ports), None), "instance": next(iter(m.instances), None)}
         for target, name in [("fresh", "zzadd")] + [(k, v) for k, v in held.items() if v]:
             for vk, mk in (("Signal", lambda: h.Signal()), ("Port", lambda: h.Input(width=2)), ("Instance", lambda: h.Instance(of=leaf))):
